@@ -161,6 +161,89 @@ pub fn c17_huffman_canonical_codes() {
     kani::cover!(q == s, "sentinel has no code");
 }
 
+// @prop C17
+// @tier quick
+// @unit jxl_jbr::huffman::{HuffmanCode::build,BuiltHuffmanTable::lookup}
+// @sym tables of 1, 2 and 3 values (sentinel included) whose 17 length counts are symbolic, the values and the looked-up symbol symbolic
+// @bound at most 3 values; counts satisfy what HuffmanCode::parse guarantees (counts[0] == 0 and the counts add up to the number of values >= 1: HuffmanCode::parse rejects the other records before it reads any value and then collects exactly sum(counts) values - by reading; the harness that would decide it, c17_huffman_record_parse_then_build_total, does not finish and is kept experimental)
+// @assume the validity predicate above
+// @oblig building the table of a degenerate but accepted code (only the sentinel; one or two symbols of any lengths, incl. over-subscribed codes) returns, never panics (finding F08: a table that holds only the sentinel indexed an empty vector)
+#[kani::proof]
+#[kani::unwind(258)]
+pub fn c17_huffman_build_total_small_tables() {
+    let counts: [u8; 17] = kani::any();
+    kani::assume(counts[0] == 0);
+    let mut sum = 0u32;
+    let mut i = 0;
+    while i < 17 {
+        sum += counts[i] as u32;
+        i += 1;
+    }
+    let q: u8 = kani::any();
+    let (a, b, c): (u8, u8, u8) = (kani::any(), kani::any(), kani::any());
+    let which: u8 = kani::any();
+    let r = if which == 0 {
+        kani::assume(sum == 1);
+        jv::huffman_build_and_lookup(counts, vec![a], q)
+    } else if which == 1 {
+        kani::assume(sum == 2);
+        jv::huffman_build_and_lookup(counts, vec![a, b], q)
+    } else {
+        kani::assume(sum == 3);
+        jv::huffman_build_and_lookup(counts, vec![a, b, c], q)
+    };
+    if which == 0 {
+        assert!(r.is_err()); // the sentinel has no code
+    }
+    if which == 1 && q == a {
+        assert!(matches!(r, Ok((_, 0)))); // the first code is all zeros
+    }
+    kani::cover!(which == 0, "sentinel-only table");
+    kani::cover!(which == 2 && counts[1] == 3, "over-subscribed lengths");
+    kani::cover!(r.is_ok(), "a code was found");
+}
+
+// @prop C17
+// @tier experimental
+// @note does not finish (4 min cap, twice): the symbolic value fields lie inside the bit reader's 8-byte read-ahead of the count fields, so CBMC no longer folds the (concrete) counts and the value-collecting loop is unwound to the global bound
+// @unit jxl_jbr::huffman::{HuffmanCode::parse,HuffmanCode::build,BuiltHuffmanTable::lookup}
+// @sym one Huffman code record in 8 bytes: the flag bits, the value fields (selectors and payload) and the looked-up symbol symbolic; the count selectors of counts[0] and counts[1] enumerated as constants over (0,0) (1,0) (0,1) (1,1), counts[2..] = 0
+// @bound records with at most 2 values; the four count layouts are concrete (a symbolic number of values makes the collecting loop unbounded for CBMC: 5 min without a verdict)
+// @assume none beyond the layouts
+// @oblig a hostile record is either rejected by the parser or its table builds and looks up without panic; accepted records have counts[0] == 0 and as many values as the counts add up to, at least one (finding F08: a code of length 0 shifted by 64; an empty record underflowed `values.len() - 1` in the DHT writer; a sentinel-only record indexed an empty vector)
+#[kani::proof]
+#[kani::unwind(258)]
+pub fn c17_huffman_record_parse_then_build_total() {
+    fn case(sel0: u8, sel1: u8) -> u8 {
+        let flags: u8 = kani::any::<u8>() & 0x0f;
+        let hi: u8 = kani::any::<u8>() & 0xc0;
+        let (v5, v6, v7): (u8, u8, u8) = (kani::any(), kani::any(), kani::any());
+        // LSB first: is_ac(1) id(2) is_last(1), then 17 two-bit count selectors (0 -> 0, 1 -> 1)
+        let bytes: [u8; 8] = [flags | sel0 << 4 | sel1 << 6, 0, 0, 0, hi, v5, v6, v7];
+        let q: u8 = kani::any();
+        let mut bs = jxl_bitstream::Bitstream::new(&bytes[..]);
+        match jv::huffman_parse_build_and_lookup(&mut bs, q) {
+            Ok((len, _bits, counts, n)) => {
+                assert!(counts[0] == 0 && counts[1] == sel1);
+                assert!(n >= 1 && n == sel1 as usize);
+                assert!(len == 1);
+                0
+            }
+            Err(true) => 1,
+            Err(false) => 2,
+        }
+    }
+    let r00 = case(0, 0);
+    assert!(r00 == 1); // no values at all: rejected
+    let r10 = case(1, 0);
+    assert!(r10 == 1); // a code of length 0: rejected
+    let r11 = case(1, 1);
+    assert!(r11 == 1);
+    let r01 = case(0, 1);
+    assert!(r01 == 2); // only the sentinel: accepted, no symbol has a code
+    kani::cover!(r01 == 2, "sentinel-only record accepted and built");
+}
+
 // @prop C17 C01
 // @tier quick
 // @unit jxl_jbr::{AppMarker::parse,JpegBitstreamHeader::{expected_icc_len,expected_exif_len,expected_xmp_len}}
